@@ -7,7 +7,7 @@ from rules.panic_clause import panic_clause, reach_stop
 from props import common
 
 STOP_VISIT = re.compile(r"Visitor<'de>>::visit_(?!(str|map|string|borrowed_str)($|::))|Visitor<'de>>::expecting$")
-FLOATY = re.compile(r'try_parse_from_f(32|64)$|parse_from_f(32|64)(_subnormal)?$|ToPrimitive::to_f(32|64)$|::to_f64$|::to_f32$|f64 as std::str::FromStr|f32 as std::str::FromStr|core::f64::|core::f32::|libm::|TryFrom<f(32|64)>')
+FLOATY = re.compile(r'try_parse_from_f(32|64)$|parse_from_f(32|64)(_subnormal)?$|ToPrimitive::to_f(32|64)$|::to_f64$|::to_f32$|f64 as std::str::FromStr|f32 as std::str::FromStr|(?:core|std)::f64::|(?:core|std)::f32::|libm::|TryFrom<f(32|64)>')
 
 
 def entries(F):
@@ -113,6 +113,69 @@ def sibling_limit(rep, F, E, rule='SIBLING-LIMIT'):
     return n
 
 
+def guard_signatures(F, fn):
+    """structural signature of every comparison against the scale limit in an adapter (and its
+    closures): operator + provenance of both operands, and of the receiver the closure is applied to"""
+    from rules import panic
+
+    class PV(panic.Provenance):
+        def of_place(self, pl, depth=3):
+            if any(isinstance(p, dict) and p.get('n') == 'scale' for p in pl['p']):
+                return 'SCALE'
+            return panic.Provenance.of_place(self, pl, depth)
+
+    sigs = set()
+    bodies = [fn] + [F.fns[c] for c in F.closures_of(fn.name)]
+    for c in list(bodies):
+        bodies += [F.fns[x] for x in F.closures_of(c.name) if F.fns[x] not in bodies]
+    for g in bodies:
+        pv = PV(g)
+        uses_limit = False
+        for bid, st in g.stmts():
+            rv = st['rv']
+            if rv['r'] == 'bin' and rv['bop'] in ('Lt', 'Le', 'Gt', 'Ge', 'Eq', 'Ne'):
+                a, b = pv.of_op(rv['a'], 4), pv.of_op(rv['b'], 4)
+                if 'SERDE_SCALE_LIMIT' in a + b:
+                    uses_limit = True
+                    sigs.add('%s(%s,%s)' % (rv['bop'], re.sub(r'param#\d+', 'param', a), re.sub(r'param#\d+', 'param', b)))
+        if uses_limit and g.is_closure and g.locals[0] == 'bool':
+            # what is the closure applied to?  (the receiver of the combinator in the parent)
+            parent = F.fns.get(re.sub(r'::\{closure#\d+\}$', '', g.name))
+            if parent is not None:
+                pp = PV(parent)
+                for bid, t in parent.calls():
+                    if any(a['k'] in ('copy', 'move') and g.name.split('::')[-1] in strip_closure(parent, a) for a in t['args']):
+                        recv = pp.of_op(t['args'][0], 4)
+                        sigs.add('%s on %s' % (prov.strip_args(cdef(t)).split('::')[-1], re.sub(r'param#\d+', 'param', recv)))
+    return sigs
+
+
+def strip_closure(parent, a):
+    """name of the closure a call argument is (via its single aggregate definition), else ''"""
+    l = a['pl']['l']
+    for bid, st in parent.stmts():
+        if st['lhs']['l'] == l and not st['lhs']['p'] and st['rv']['r'] == 'agg' and st['rv']['kind'].get('a') == 'closure':
+            return st['rv']['kind'].get('def', '')
+    return ''
+
+
+def sibling_signatures(rep, F, rule='SIBLING-LIMIT'):
+    fns = [f for f in F.real_fns() if not f.is_closure and re.search(r'impl_serde::arbitrary_precision(_option)?::deserialize$', f.name)]
+    if len(fns) != 2:
+        rep.note('sibling signature cross-check needs exactly two JSON-number adapters, found %d' % len(fns))
+        return 0
+    sa, sb = guard_signatures(F, fns[0]), guard_signatures(F, fns[1])
+    key = 'json_num~json_num_option:same-guard'
+    norm = lambda S: {re.sub(r'tmp(\.\w+)*|var(\.\w+)*', '_', x) for x in S}
+    if norm(sa) == norm(sb) and sa:
+        rep.ok(rule, key, 'both adapters guard the scale with the same predicate: %s' % sorted(sa), fns[0].where())
+    elif not sa or not sb:
+        rep.violation(rule, key, 'one adapter has no comparison against SERDE_SCALE_LIMIT at all: %s vs %s' % (sorted(sa), sorted(sb)), fns[1].where())
+    else:
+        rep.violation(rule, key, 'the two JSON-number adapters test the scale limit differently (one of them is wrong): %s  vs  %s' % (sorted(sa - sb), sorted(sb - sa)), fns[1].where())
+    return 1
+
+
 def run_config(ctx, feat):
     rep = ctx.rep
     Fd = ctx.facts(feat, 'dbg')
@@ -126,6 +189,7 @@ def run_config(ctx, feat):
     if not hasattr(Fr, '_prov'):
         Fr._prov = prov.ProvEngine(Fr)
     nl = sibling_limit(rep, Fr, Fr._prov)
+    sibling_signatures(rep, Fr)
     return len(ents_d), nsites, nf, ns, nl
 
 
